@@ -87,7 +87,9 @@ pub fn weak_case(cred: &pipeline::Cred, sel: &Map<String, Value>, l: &mut Local)
 }
 
 pub fn run_weak(rep: &Report, n: usize) {
-    let sels = gen::arbitrary_selections(n, &["a", "b", "zz"]);
+    let mut sels = gen::arbitrary_selections(n, &["a", "b", "zz"]);
+    // selectors naming the reserved keys and other structural names
+    sels.extend(gen::arbitrary_selections(n.min(3), &["a", "_sd", "...", "_sd_alg", "cnf", "iss"]));
     let creds = weak_creds();
     let cfgs = [Cfg::CHEAP, Cfg { fmt: Fmt::Json, alg: Alg::HS256, decoys: true, hk: Hk::None }];
     let mut items = vec![];
